@@ -22,13 +22,18 @@ class _:
     requires = ["0 <= message.attributes and message.attributes <= 255",
                 "message.key is None or len(message.key) < 2147483648", "message.value is None or len(message.value) < 2147483648",
                 "message.magic != 1 or message.timestamp is None or (-9223372036854775808 <= message.timestamp and message.timestamp <= 9223372036854775807)"]
-    ensures = {"v0[C04]": "implies(message.magic == 0, result == enc_msg0(message.attributes, message.key, message.value))",
-               "v1[C04]": "implies(message.magic == 1 and message.timestamp is not None, "
+    ensures = {"v0[C04,C05]": "implies(message.magic == 0, result == enc_msg0(message.attributes, message.key, message.value))",
+               "v1[C04,C05]": "implies(message.magic == 1 and message.timestamp is not None, "
                           "result == enc_msg1(message.attributes, message.key, message.value, message.timestamp))",
                "v1-now[C04]": "implies(message.magic == 1 and message.timestamp is None, "
                               "result == enc_msg1(message.attributes, message.key, message.value, int(time_read(0) * 1000)))"}
     ensures["size[C04]"] = "len(result) <= 26 + ite(message.key is None, 0, len(message.key)) + ite(message.value is None, 0, len(message.value))"
     raises = {"ProtocolError": "iff:message.magic != 0 and message.magic != 1"}
+    # C05 ("encoding then decoding is the identity on messages"): the encoder is proved to produce enc_msg0/1(m) (above) and
+    # the decoder to return what the parser-side spec reads (c_codec_dec2).  The spec-level facts that would close the
+    # loop - msg0_key(enc_msg0(a, k, v)) == k, ... - were attempted as `lemmas` with unpack-of-pack axioms: the checksum
+    # and magic/attribute parts discharge (cvc5 18 s, z3 1 s), the key/value parts time out in both solvers at 30 s, so
+    # they are NOT claimed; the thorough tier's native cross-check evaluates both specs against the real codec instead.
 
 
 @contract(K + "_encode_message_set")
